@@ -110,7 +110,11 @@ let handle (w : string list) : string =
   | ["t2read_old"; em] -> show_res show_layout (t2_read (bytes_of_hex em))
   | ["t1read"; hr0; em] -> let (r, d) = t1_read_d (zi hr0) (bytes_of_hex em) in show_res show_layout r ^ " d=" ^ zs d
   | ["t1read_old"; hr0; em] -> show_res show_layout (t1_read (zi hr0) (bytes_of_hex em))
-  | ["t2bound"; dend] -> zs (t2_demand_bound (zi dend)) ^ " " ^ zs (t2_cmds_max (t2_demand_bound (zi dend)))
+  | ["t2bound"; dend] -> zs (t2_demand_bound (zi dend)) ^ " " ^ zs (t2_wire_max (t2_demand_bound (zi dend)))
+  | ["t2resp"; script] ->
+      let (r, sent) = t2_read_responses (script_of script) in show_res show_layout r ^ " | sent=" ^ hexlist sent
+  | ["t1resp"; uid; script] ->
+      let (r, sent) = t1_read_responses (bytes_of_hex uid) (script_of script) in show_res show_layout r ^ " | sent=" ^ hexlist sent
   | ["t1cmds"; d] -> zs (t1_cmds_max (zi d))
   | ["t3sess"; idm; sys; script] ->
       let ((r1, r2), s) = t3_session (bytes_of_hex idm) (zi sys) { a_script = script_of script; a_sent = []; a_blocks = [] } in
